@@ -94,7 +94,7 @@ func sentinelNamesInSource() ([]string, error) {
 	if root == "" {
 		root = "/repo"
 	}
-	f, err := parser.ParseFile(token.NewFileSet(), filepath.Join(root, "core/da/errors.go"), nil, 0)
+	f, err := parser.ParseFile(token.NewFileSet(), hx.SourcePath(filepath.Join(root, "core/da/errors.go")), nil, 0)
 	if err != nil {
 		return nil, err
 	}
